@@ -5,7 +5,7 @@ from ..core import callee_def, op_local, op_place
 from ..flow import origins
 from ..props import prop
 from . import common
-from .common import is_callee, flows_into, exactly_once_on_normal_paths, path_to_return_avoiding
+from .common import is_callee, flows_into, exactly_once_on_normal_paths, path_to_return_avoiding, error_exit_blocks
 from .c03 import kind_deep
 
 PARSER = "frontend::parser::Parser::<'a>::"
@@ -91,6 +91,15 @@ def c13(ctx):
     rep.rule("C13.R6", "line attribution: the number a parse error prints for a token location is the `line` of the *start* of that token's "
              "range (a token spanning several lines lies on the line it starts on), and for a line location the stored line itself")
     line_attribution(ctx)
+    rep.rule("C13.R7", "line attribution depends on the lexer's line bookkeeping: the C12.R6 merge rule (a token merged with its suffix keeps its "
+             "own newline count and line start) re-checked here, because every later error line is computed from it")
+    from .c12 import merge_rule
+    merge_rule(ctx, "C13.R7")
+    rep.rule("C13.R8", "an operand follows every separator / operator: in every parser loop that is driven by match_and_consume(separators or "
+             "operators) and parses an element per round (parameter lists, binary and comparison chains), once the separator has been "
+             "consumed the loop can neither be left normally nor go round again without having called the element parser, whose error is "
+             "propagated -- `Foo taking 1, and` is not a complete call")
+    operand_after_separator(ctx, "C13.R8")
     # ---- R1
     for name, exits_allowed in (("parse_block", False), ("parse_function_block", True)):
         fn = F.fn(PARSER + name)
@@ -294,3 +303,56 @@ def line_attribution(ctx):
             ok, why = False, "a line location does not print its stored line"
         rep.ob("C13.R6", "line-shown::%d" % (n - 1), ok, why, fn.loc(t["line"]), how="Token -> range.start().line, Line -> the line")
     rep.floor("C13.R6", n, 1, "values printed by Display for ParseErrorLocation")
+
+
+
+SEPARATOR_LOOP_EXCEPTIONS = {
+    PARSER + "match_and_consume_while": "the callback processes the token just consumed; this loop has no operand to require",
+}
+
+
+def operand_after_separator(ctx, rule):
+    F, rep = ctx.F, ctx.rep
+    from ..guards import _dominated_by_edge
+    n = 0
+    for fn in F.all_bodies(tests=False):
+        if not fn.file.endswith("frontend/parser.rs") or fn.path in SEPARATOR_LOOP_EXCEPTIONS:
+            continue
+        err = error_exit_blocks(fn)
+        for scc in fn.sccs():
+            mcs = [b for b in scc if fn.term(b)["k"] == "call" and callee_def(fn.term(b)) == PARSER + "match_and_consume"]
+            elems = [b for b in scc if fn.term(b)["k"] == "call" and b not in mcs and (
+                "indirect" in fn.term(b)["callee"] or (callee_def(fn.term(b)) or "").startswith((PARSER + "parse_", PARSER + "expect_")) or fn.term(b)["callee"].get("name") in ("call_mut", "call_once", "call"))]
+            if not mcs or not elems:
+                continue
+            # the driving match: its "nothing matched" outcome leaves the loop
+            drive = None
+            for mb in sorted(mcs):
+                for sb in scc:
+                    sw = tables.arms_complete(fn, sb)
+                    if sw and "Some" in sw[2] and "None" in sw[2] and mb in progress.deep_sources(fn, {"copy": {"l": sw[0]["l"], "p": []}}):
+                        if sw[2]["None"] not in scc and sw[2]["Some"] in scc and drive is None:
+                            drive = (mb, sb, sw[2]["Some"])
+            if drive is None:
+                continue
+            n += 1
+            rep.analysed(fn)
+            mb, sb, some_t = drive
+            seen, st_ = set(), [some_t]
+            while st_:
+                x = st_.pop()
+                if x in seen or x in elems:
+                    continue
+                seen.add(x)
+                if x not in scc:
+                    continue
+                for y in fn.succs()[x]:
+                    st_.append(y)
+            left = sorted(b for b in seen if b not in scc and b not in err and not fn.blocks[b].get("cleanup"))
+            again = mb in seen
+            ok = not left and not again
+            rep.ob(rule, "operand-after-separator::%s" % common.top_fn(F, fn).path, ok,
+                   "" if ok else ("after a separator was consumed, %s can %s without having parsed the element that must follow it (line %s): an operand that is missing is silently accepted" % (
+                       fn.path, "leave the loop" if left else "take the next separator", fn.term(left[0] if left else mb).get("line") or fn.term(mb)["line"])),
+                   fn.loc(fn.term(mb)["line"]), how="every way on from the separator passes the element parser")
+    rep.floor(rule, n, 2, "separator-driven loops with an element per round")
